@@ -2,4 +2,564 @@ import Pff.Model.Scan
 /-! Helper lemmas for C14 (entry scanning). -/
 namespace Pff.Scan
 
+/-! ## `find` -/
+
+theorem find_eq_some_iff {sub buf : Bytes} {b i : Nat} :
+    find sub buf b = some i ↔
+      sub.isPrefixOf (buf.drop i) = true ∧ b ≤ i ∧ i ≤ buf.length ∧
+        ∀ j, b ≤ j → j < i → sub.isPrefixOf (buf.drop j) = false := by
+  unfold find
+  rw [List.find?_range'_eq_some]
+  simp only [List.mem_range', Bool.not_eq_true', Nat.one_mul]
+  constructor
+  · rintro ⟨h1, ⟨k, hk, rfl⟩, h3⟩
+    exact ⟨h1, by omega, by omega, h3⟩
+  · rintro ⟨h1, h2, h3, h4⟩
+    exact ⟨h1, ⟨i - b, by omega, by omega⟩, h4⟩
+
+theorem find_eq_none_iff {sub buf : Bytes} {b : Nat} :
+    find sub buf b = none ↔
+      ∀ j, b ≤ j → j ≤ buf.length → sub.isPrefixOf (buf.drop j) = false := by
+  unfold find
+  rw [List.find?_range'_eq_none]
+  simp only [Bool.not_eq_true']
+  constructor
+  · intro h j h1 h2
+    exact h j h1 (by omega)
+  · intro h j h1 h2
+    exact h j h1 (by omega)
+
+/-- an occurrence of a nonempty `sub` at `i` lies inside the buffer -/
+theorem occ_bound {sub buf : Bytes} {i : Nat}
+    (h : sub.isPrefixOf (buf.drop i) = true) : i + sub.length ≤ buf.length ∨ sub.length = 0 := by
+  rw [List.isPrefixOf_iff_prefix] at h
+  have := h.length_le
+  simp only [List.length_drop] at this
+  omega
+
+theorem occ_le {sub buf : Bytes} {i : Nat} (hm : 0 < sub.length)
+    (h : sub.isPrefixOf (buf.drop i) = true) : i + sub.length ≤ buf.length := by
+  have := occ_bound h
+  omega
+
+/-- for a nonempty needle the upper bounds are automatic -/
+theorem find_eq_some_iff' {sub buf : Bytes} {b i : Nat} (hm : 0 < sub.length) :
+    find sub buf b = some i ↔
+      sub.isPrefixOf (buf.drop i) = true ∧ b ≤ i ∧
+        ∀ j, b ≤ j → j < i → sub.isPrefixOf (buf.drop j) = false := by
+  rw [find_eq_some_iff]
+  constructor
+  · rintro ⟨h1, h2, _, h4⟩
+    exact ⟨h1, h2, h4⟩
+  · rintro ⟨h1, h2, h4⟩
+    have := occ_le hm h1
+    exact ⟨h1, h2, by omega, h4⟩
+
+theorem find_eq_none_iff' {sub buf : Bytes} {b : Nat} (hm : 0 < sub.length) :
+    find sub buf b = none ↔ ∀ j, b ≤ j → sub.isPrefixOf (buf.drop j) = false := by
+  rw [find_eq_none_iff]
+  constructor
+  · intro h j h1
+    cases hj : sub.isPrefixOf (buf.drop j) with
+    | false => rfl
+    | true =>
+      have := occ_le hm hj
+      rw [← hj]
+      exact h j h1 (by omega)
+  · intro h j h1 _
+    exact h j h1
+
+/-- skipping a stretch without occurrences does not change the result -/
+theorem find_skip {sub buf : Bytes} {b b' : Nat} (hb : b ≤ b')
+    (h : ∀ j, b ≤ j → j < b' → sub.isPrefixOf (buf.drop j) = false) :
+    find sub buf b = find sub buf b' := by
+  cases h' : find sub buf b' with
+  | none =>
+    rw [find_eq_none_iff] at h' ⊢
+    intro j h1 h2
+    by_cases hj : j < b'
+    · exact h j h1 hj
+    · exact h' j (by omega) h2
+  | some i =>
+    rw [find_eq_some_iff] at h' ⊢
+    obtain ⟨h1, h2, h3, h4⟩ := h'
+    refine ⟨h1, by omega, h3, ?_⟩
+    intro j hj1 hj2
+    by_cases hj : j < b'
+    · exact h j hj1 hj
+    · exact h4 j (by omega) hj2
+
+/-- occurrences inside a read window -/
+theorem occ_window {marker stream : Bytes} {p bs i : Nat} (hm : 0 < marker.length) :
+    marker.isPrefixOf (((stream.drop p).take bs).drop i) = true ↔
+      marker.isPrefixOf (stream.drop (p + i)) = true ∧ i + marker.length ≤ bs := by
+  rw [List.drop_take, List.drop_drop, List.isPrefixOf_iff_prefix, List.isPrefixOf_iff_prefix,
+    List.prefix_take_iff]
+  constructor
+  · rintro ⟨h1, h2⟩
+    exact ⟨h1, by omega⟩
+  · rintro ⟨h1, h2⟩
+    exact ⟨h1, by omega⟩
+
+
+/-- an occurrence found in a read window is the next occurrence in the stream -/
+theorem window_find_some {marker stream : Bytes} {p bs b e : Nat} (hm : 0 < marker.length)
+    (h : find marker ((stream.drop p).take bs) b = some e) :
+    find marker stream (p + b) = some (p + e) ∧ e + marker.length ≤ bs := by
+  rw [find_eq_some_iff' hm] at h
+  obtain ⟨h1, h2, h3⟩ := h
+  rw [occ_window hm] at h1
+  refine ⟨?_, h1.2⟩
+  rw [find_eq_some_iff' hm]
+  refine ⟨h1.1, by omega, ?_⟩
+  intro j hj1 hj2
+  have := h3 (j - p) (by omega) (by omega)
+  cases hj : marker.isPrefixOf (stream.drop j) with
+  | false => rfl
+  | true =>
+    rw [← this, eq_comm, occ_window hm]
+    have : p + (j - p) = j := by omega
+    rw [this]
+    exact ⟨hj, by omega⟩
+
+/-- nothing found in a read window: every later occurrence sticks out of the window -/
+theorem window_find_none {marker stream : Bytes} {p bs b : Nat} (hm : 0 < marker.length)
+    (h : find marker ((stream.drop p).take bs) b = none) :
+    ∀ q, p + b ≤ q → marker.isPrefixOf (stream.drop q) = true → p + bs < q + marker.length := by
+  rw [find_eq_none_iff' hm] at h
+  intro q hq1 hq2
+  have := h (q - p) (by omega)
+  have h3 : ¬ (marker.isPrefixOf (((stream.drop p).take bs).drop (q - p)) = true) := by
+    rw [this]; simp
+  rw [occ_window hm] at h3
+  have : p + (q - p) = q := by omega
+  rw [this] at h3
+  have : ¬ (q - p + marker.length ≤ bs) := fun h => h3 ⟨hq2, h⟩
+  omega
+
+/-! ## one loop iteration, case by case -/
+
+
+section steps
+variable (stream marker : Bytes) (bs p : Nat)
+
+local notation "buf" => List.take bs (List.drop p stream)
+
+theorem step1_none_short (h : find marker buf 0 = none) (hs : (buf).length < bs) :
+    scanStep false stream marker bs ⟨none, none, none, p⟩ = .stop (p + (buf).length) := by
+  simp only [scanStep, h, hs, if_true]
+
+theorem step1_none_full (h : find marker buf 0 = none) (hs : ¬ (buf).length < bs) :
+    scanStep false stream marker bs ⟨none, none, none, p⟩ =
+      .continue ⟨none, none, none, p + (buf).length - marker.length⟩ := by
+  simp only [scanStep, h, hs, if_true, if_false]
+
+theorem step1_some_some {s e : Nat} (h : find marker buf 0 = some s)
+    (h' : find marker buf (s + marker.length) = some e) (hlt : s < e) :
+    scanStep false stream marker bs ⟨none, none, none, p⟩ =
+      .found (p + s + marker.length) (p + e) := by
+  have hmax : max (s + marker.length) (p + s + marker.length - p) = s + marker.length := by omega
+  have hlt' : p + s < p + e := by omega
+  simp only [scanStep]
+  generalize buf = B at h h' ⊢
+  simp [h, hmax, h', hlt']
+
+theorem step1_some_none_short {s : Nat} (h : find marker buf 0 = some s)
+    (h' : find marker buf (s + marker.length) = none) (hs : (buf).length < bs)
+    (hlt : s < (buf).length) :
+    scanStep false stream marker bs ⟨none, none, none, p⟩ =
+      .found (p + s + marker.length) (p + (buf).length) := by
+  have hmax : max (s + marker.length) (p + s + marker.length - p) = s + marker.length := by omega
+  simp only [scanStep]
+  generalize buf = B at h h' hs hlt ⊢
+  simp [h, hmax, h', hlt, hs]
+
+theorem step1_some_none_full {s : Nat} (hm : 0 < marker.length) (h : find marker buf 0 = some s)
+    (h' : find marker buf (s + marker.length) = none) (hs : ¬ (buf).length < bs) :
+    scanStep false stream marker bs ⟨none, none, none, p⟩ =
+      .continue ⟨some 0, some (p + s), none, p + (buf).length - marker.length⟩ := by
+  have hmax : max (s + marker.length) (p + s + marker.length - p) = s + marker.length := by omega
+  simp only [scanStep]
+  generalize buf = B at h h' hs ⊢
+  simp [h, hmax, h', hs]
+  split
+  · rfl
+  · rename_i h2; exact (h2 (s + marker.length - 1) (by congr 1; omega)).elim
+
+theorem step2_some {sc e : Nat} (h : find marker buf (sc + marker.length - p) = some e)
+    (hlt : sc < p + e) :
+    scanStep false stream marker bs ⟨some 0, some sc, none, p⟩ =
+      .found (sc + marker.length) (p + e) := by
+  simp only [scanStep]
+  generalize buf = B at h ⊢
+  simp [h, hlt]
+
+theorem step2_none_short {sc : Nat} (h : find marker buf (sc + marker.length - p) = none)
+    (hs : (buf).length < bs) (hlt : sc < p + (buf).length) :
+    scanStep false stream marker bs ⟨some 0, some sc, none, p⟩ =
+      .found (sc + marker.length) (p + (buf).length) := by
+  simp only [scanStep]
+  generalize buf = B at h hs hlt ⊢
+  simp [h, hlt, hs]
+
+theorem step2_none_full {sc : Nat} (h : find marker buf (sc + marker.length - p) = none)
+    (hs : ¬ (buf).length < bs) :
+    scanStep false stream marker bs ⟨some 0, some sc, none, p⟩ =
+      .continue ⟨some 0, some sc, none, p + (buf).length - marker.length⟩ := by
+  simp only [scanStep]
+  generalize buf = B at h hs ⊢
+  simp [h, hs]
+  
+end steps
+
+/-! ## the loop -/
+
+
+theorem not_occ_of {marker stream : Bytes} {j : Nat} {P : Prop}
+    (h : marker.isPrefixOf (stream.drop j) = true → P) (hP : ¬ P) :
+    marker.isPrefixOf (stream.drop j) = false := by
+  cases hj : marker.isPrefixOf (stream.drop j) with
+  | false => rfl
+  | true => exact absurd (h hj) hP
+
+theorem loop2 (stream marker : Bytes) (bs : Nat) (hm : 0 < marker.length) (hbs : marker.length < bs) :
+    ∀ fuel p sc, p ≤ stream.length → stream.length - p < fuel → sc ≤ p →
+      sc + marker.length ≤ stream.length →
+      (∀ q, sc + marker.length ≤ q → marker.isPrefixOf (stream.drop q) = true → p ≤ q) →
+      scanLoop false stream marker bs fuel ⟨some 0, some sc, none, p⟩ =
+        (some (sc + marker.length, (find marker stream (sc + marker.length)).getD stream.length),
+          sc + marker.length) := by
+  intro fuel
+  induction fuel with
+  | zero => intro p sc _ h; omega
+  | succ fuel ih =>
+    intro p sc hp hfuel hsc hscm hinv
+    have hlen : (List.take bs (List.drop p stream)).length = min bs (stream.length - p) := by
+      simp
+    have hskip : find marker stream (sc + marker.length) =
+        find marker stream (p + (sc + marker.length - p)) := by
+      apply find_skip (by omega)
+      intro j h1 h2
+      exact not_occ_of (hinv j h1) (by omega)
+    unfold scanLoop
+    cases h : find marker (List.take bs (List.drop p stream)) (sc + marker.length - p) with
+    | some e =>
+      obtain ⟨w1, w2⟩ := window_find_some hm h
+      have hle := ((find_eq_some_iff' hm).1 h).2.1
+      rw [step2_some _ _ _ _ h (by omega)]
+      simp only
+      rw [hskip, w1]
+      rfl
+    | none =>
+      have w := window_find_none hm h
+      by_cases hs : (List.take bs (List.drop p stream)).length < bs
+      · rw [step2_none_short _ _ _ _ h hs (by omega)]
+        simp only
+        have hnone : find marker stream (p + (sc + marker.length - p)) = none := by
+          rw [find_eq_none_iff' hm]
+          intro j hj
+          apply not_occ_of (P := False) _ (fun h => h)
+          intro hocc
+          have := w j hj hocc
+          have := occ_le hm hocc
+          omega
+        rw [hskip, hnone]
+        have : p + (List.take bs (List.drop p stream)).length = stream.length := by omega
+        rw [this]
+        rfl
+      · rw [step2_none_full _ _ _ _ h hs]
+        simp only
+        have hfull : (List.take bs (List.drop p stream)).length = bs := by omega
+        rw [hfull]
+        apply ih
+        · omega
+        · omega
+        · omega
+        · exact hscm
+        · intro q hq hocc
+          have := hinv q hq hocc
+          have := w q (by omega) hocc
+          omega
+
+
+
+
+theorem loop1 (stream marker : Bytes) (bs : Nat) (hm : 0 < marker.length) (hbs : marker.length < bs) :
+    ∀ fuel p, p ≤ stream.length → stream.length - p < fuel →
+      scanLoop false stream marker bs fuel ⟨none, none, none, p⟩ =
+        match specNext stream marker p with
+        | some (a, b) => (some (a, b), a)
+        | none => (none, stream.length) := by
+  intro fuel
+  induction fuel with
+  | zero => intro p _ h; omega
+  | succ fuel ih =>
+    intro p hp hfuel
+    have hlen : (List.take bs (List.drop p stream)).length = min bs (stream.length - p) := by
+      simp
+    unfold scanLoop
+    cases h : find marker (List.take bs (List.drop p stream)) 0 with
+    | none =>
+      have w := window_find_none hm h
+      by_cases hs : (List.take bs (List.drop p stream)).length < bs
+      · rw [step1_none_short _ _ _ _ h hs]
+        have hnone : find marker stream p = none := by
+          rw [find_eq_none_iff' hm]
+          intro j hj
+          apply not_occ_of (P := False) _ (fun h => h)
+          intro hocc
+          have := w j hj hocc
+          have := occ_le hm hocc
+          omega
+        simp only [specNext, hnone]
+        have : p + (List.take bs (List.drop p stream)).length = stream.length := by omega
+        rw [this]
+      · rw [step1_none_full _ _ _ _ h hs]
+        simp only
+        have hfull : (List.take bs (List.drop p stream)).length = bs := by omega
+        rw [hfull, ih _ (by omega) (by omega)]
+        have hskip : find marker stream p = find marker stream (p + bs - marker.length) := by
+          apply find_skip (by omega)
+          intro j h1 h2
+          exact not_occ_of (w j h1) (by omega)
+        simp only [specNext, hskip]
+    | some s =>
+      obtain ⟨w1, w2⟩ := window_find_some hm h
+      have hocc := occ_le hm ((find_eq_some_iff' hm).1 h).1
+      have hspec : specNext stream marker p = some (p + s + marker.length,
+          (find marker stream (p + (s + marker.length))).getD stream.length) := by
+        simp only [specNext, Nat.add_zero] at w1 ⊢
+        simp only [w1, Nat.add_assoc]
+      rw [hspec]
+      simp only
+      cases h' : find marker (List.take bs (List.drop p stream)) (s + marker.length) with
+      | some e =>
+        obtain ⟨v1, v2⟩ := window_find_some hm h'
+        have hle := ((find_eq_some_iff' hm).1 h').2.1
+        rw [step1_some_some _ _ _ _ h h' (by omega), v1]
+        rfl
+      | none =>
+        have w := window_find_none hm h'
+        by_cases hs : (List.take bs (List.drop p stream)).length < bs
+        · rw [step1_some_none_short _ _ _ _ h h' hs (by omega)]
+          have hnone : find marker stream (p + (s + marker.length)) = none := by
+            rw [find_eq_none_iff' hm]
+            intro j hj
+            apply not_occ_of (P := False) _ (fun h => h)
+            intro hocc
+            have := w j hj hocc
+            have := occ_le hm hocc
+            omega
+          have : p + (List.take bs (List.drop p stream)).length = stream.length := by omega
+          rw [hnone, this]
+          rfl
+        · rw [step1_some_none_full _ _ _ _ hm h h' hs]
+          simp only
+          have hfull : (List.take bs (List.drop p stream)).length = bs := by omega
+          rw [hfull, loop2 stream marker bs hm hbs fuel _ (p + s) (by omega) (by omega) (by omega)
+            (by omega)]
+          · simp only [Nat.add_assoc]
+          · intro q hq hocc
+            have := w q (by omega) hocc
+            omega
+
+
+
+
+theorem getNextEntry_eq_spec (stream marker : Bytes) (blocksize pos : Nat) (hm : 0 < marker.length)
+    (hpos : pos ≤ stream.length) :
+    getNextEntry false stream marker blocksize pos =
+      match specNext stream marker pos with
+      | some (a, b) => (some (a, b), a)
+      | none => (none, stream.length) := by
+  unfold getNextEntry
+  exact loop1 stream marker _ hm (by split <;> omega) _ pos hpos (by omega)
+
+/-! ## repeated calls -/
+
+theorem specNext_le {stream marker : Bytes} {pos a b : Nat} (hm : 0 < marker.length)
+    (h : specNext stream marker pos = some (a, b)) : a ≤ stream.length := by
+  unfold specNext at h
+  split at h
+  · simp at h
+  · rename_i s hs
+    have := occ_le hm ((find_eq_some_iff' hm).1 hs).1
+    simp only [Option.some.injEq, Prod.mk.injEq] at h
+    omega
+
+theorem scanAll_eq_specAll (stream marker : Bytes) (blocksize : Nat) (hm : 0 < marker.length) :
+    ∀ fuel pos, pos ≤ stream.length →
+      scanAll false stream marker blocksize fuel pos = specAll stream marker fuel pos := by
+  intro fuel
+  induction fuel with
+  | zero => intro pos _; rfl
+  | succ fuel ih =>
+    intro pos hpos
+    unfold scanAll specAll
+    rw [getNextEntry_eq_spec stream marker blocksize pos hm hpos]
+    cases h : specNext stream marker pos with
+    | none => rfl
+    | some ab =>
+      obtain ⟨a, b⟩ := ab
+      simp only
+      rw [ih a (specNext_le hm h)]
+
+/-! ## generated streams -/
+
+/-- the marker offsets of the intended entries -/
+def starts (marker : Bytes) (off : Nat) (es : List Bytes) : List Nat :=
+  (intended marker off es).map (fun ab => ab.1 - marker.length)
+
+theorem starts_nil (marker : Bytes) (off : Nat) : starts marker off [] = [] := rfl
+
+theorem starts_cons (marker : Bytes) (off : Nat) (e : Bytes) (es : List Bytes) :
+    starts marker off (e :: es) = off :: starts marker (off + marker.length + e.length) es := by
+  simp [starts, intended]
+
+theorem le_of_mem_starts {marker : Bytes} {es : List Bytes} :
+    ∀ {off i : Nat}, i ∈ starts marker off es → off ≤ i := by
+  induction es with
+  | nil => intro off i h; simp [starts_nil] at h
+  | cons e es ih =>
+    intro off i h
+    rw [starts_cons, List.mem_cons] at h
+    rcases h with h | h
+    · omega
+    · have := ih h
+      omega
+
+theorem build_cons (pre marker e : Bytes) (es : List Bytes) :
+    build (pre ++ marker ++ e) marker es = build pre marker (e :: es) := by
+  simp [build]
+
+theorem specAll_succ (stream marker : Bytes) (fuel pos : Nat) :
+    specAll stream marker (fuel + 1) pos =
+      match specNext stream marker pos with
+      | some (a, b) => (a, b) :: specAll stream marker fuel a
+      | none => [] := rfl
+
+theorem specAll_built (marker : Bytes) (hm : 0 < marker.length) (S : Bytes) :
+    ∀ (es : List Bytes) (pre : Bytes) (p : Nat), build pre marker es = S → p ≤ pre.length →
+      (∀ i, p ≤ i → marker.isPrefixOf (S.drop i) = true → i ∈ starts marker pre.length es) →
+      (∀ i, i ∈ starts marker pre.length es → marker.isPrefixOf (S.drop i) = true) →
+      specAll S marker (es.length + 1) p = intended marker pre.length es := by
+  intro es
+  induction es with
+  | nil =>
+    intro pre p _ _ h1 _
+    have hnone : find marker S p = none := by
+      rw [find_eq_none_iff' hm]
+      intro j hj
+      apply not_occ_of (P := False) _ (fun h => h)
+      intro hocc
+      have := h1 j hj hocc
+      simp [starts_nil] at this
+    simp [specAll, specNext, hnone, intended]
+  | cons e es ih =>
+    intro pre p hS hp h1 h2
+    rw [starts_cons] at h1 h2
+    have hoff : marker.isPrefixOf (S.drop pre.length) = true := h2 _ (List.mem_cons_self ..)
+    have hfind : find marker S p = some pre.length := by
+      rw [find_eq_some_iff' hm]
+      refine ⟨hoff, hp, ?_⟩
+      intro j hj1 hj2
+      refine not_occ_of (fun h => ?_) (Nat.not_le.2 hj2)
+      have := h1 j hj1 h
+      rw [← starts_cons] at this
+      exact le_of_mem_starts this
+    -- later occurrences belong to the remaining entries
+    have h1' : ∀ i, pre.length + marker.length ≤ i → marker.isPrefixOf (S.drop i) = true →
+        i ∈ starts marker (pre.length + marker.length + e.length) es := by
+      intro i hi hocc
+      have := h1 i (by omega) hocc
+      rw [List.mem_cons] at this
+      rcases this with h | h
+      · omega
+      · exact h
+    have hskip : find marker S (pre.length + marker.length) =
+        find marker S (pre.length + marker.length + e.length) := by
+      apply find_skip (by omega)
+      intro j hj1 hj2
+      exact not_occ_of (fun h => le_of_mem_starts (h1' j hj1 h)) (by omega)
+    have hb : (find marker S (pre.length + marker.length)).getD S.length =
+        pre.length + marker.length + e.length := by
+      rw [hskip]
+      cases es with
+      | nil =>
+        have hnone : find marker S (pre.length + marker.length + e.length) = none := by
+          rw [find_eq_none_iff' hm]
+          intro j hj
+          apply not_occ_of (P := False) _ (fun h => h)
+          intro hocc
+          have := h1' j (by omega) hocc
+          simp [starts_nil] at this
+        rw [hnone, ← hS]
+        simp [build, Nat.add_assoc]
+      | cons e' es' =>
+        have hsome : find marker S (pre.length + marker.length + e.length) =
+            some (pre.length + marker.length + e.length) := by
+          rw [find_eq_some_iff' hm]
+          refine ⟨h2 _ ?_, Nat.le_refl _, ?_⟩
+          · rw [starts_cons]
+            exact List.mem_cons_of_mem _ (List.mem_cons_self ..)
+          · intro j hj1 hj2
+            omega
+        rw [hsome]
+        rfl
+    have hlen : (pre ++ marker ++ e).length = pre.length + marker.length + e.length := by
+      simp only [List.length_append]
+    have hih := ih (pre ++ marker ++ e) (pre.length + marker.length)
+      (by rw [build_cons]; exact hS) (by omega)
+      (by rw [hlen]; exact h1')
+      (by rw [hlen]; intro i hi; exact h2 i (List.mem_cons_of_mem _ hi))
+    rw [hlen] at hih
+    have hsn : specNext S marker p = some (pre.length + marker.length,
+        pre.length + marker.length + e.length) := by
+      simp only [specNext, hfind, hb]
+    show specAll S marker ((es.length + 1) + 1) p = _
+    rw [specAll_succ, hsn]
+    simp only
+    rw [hih]
+    rfl
+
+
+theorem mem_occurrences {stream marker : Bytes} {i : Nat} (hm : 0 < marker.length) :
+    i ∈ occurrences stream marker ↔ marker.isPrefixOf (stream.drop i) = true := by
+  unfold occurrences
+  rw [List.mem_filter, List.mem_range]
+  constructor
+  · exact fun h => h.2
+  · intro h
+    have := occ_le hm h
+    exact ⟨by omega, h⟩
+
+theorem specAll_intended (pre marker : Bytes) (entries : List Bytes) (hm : 0 < marker.length)
+    (h : NoAccidental pre marker entries) :
+    specAll (build pre marker entries) marker (entries.length + 1) 0 =
+      intended marker pre.length entries := by
+  have h' : occurrences (build pre marker entries) marker = starts marker pre.length entries := h
+  apply specAll_built marker hm _ entries pre 0 rfl (Nat.zero_le _)
+  · intro i _ hocc
+    rw [← h', mem_occurrences hm]
+    exact hocc
+  · intro i hi
+    rw [← h', mem_occurrences hm] at hi
+    exact hi
+
+/-- content mode on a generated stream -/
+theorem content_built (marker : Bytes) (entries : List Bytes) : ∀ pre : Bytes,
+    (intended marker pre.length entries).map
+        (fun ab => ((build pre marker entries).drop ab.1).take (ab.2 - ab.1)) = entries := by
+  induction entries with
+  | nil => intro pre; rfl
+  | cons e es ih =>
+    intro pre
+    have h2 := ih (pre ++ marker ++ e)
+    rw [build_cons] at h2
+    simp only [List.length_append] at h2
+    simp only [intended, List.map_cons]
+    rw [h2]
+    congr 1
+    simp [build]
+
 end Pff.Scan
